@@ -8,6 +8,8 @@ cross-checked against the Coq definition on real wires) and compared with what t
 """
 import json
 
+import os
+
 import vlib
 import lib_resp as L
 
@@ -437,6 +439,40 @@ def judge_failed_response(case, outs):
     return fails
 
 
+def judge_nothing_after_aborted(r, o):
+    """An application that fails after the head went out: whatever the worker does next, the bytes behind the
+    head may only be (a prefix of) the application's own output in the announced framing - never an error
+    page or anything else appended to the unfinished response."""
+    app, rq = r["app"], r["req"]
+    if app["end"][0] != "raise" or not any(a[0] == "w" for a in app["acts"]):
+        return []
+    try:
+        exp = expected_of(rq, app)
+    except (ValueError, TypeError):
+        return []
+    wire = o["wire"]
+    k = wire.find(b"\r\n\r\n")
+    if k < 0 or not wire.startswith(b"HTTP/"):
+        return []
+    # the head on the wire must be the application's response, not an error page written instead of it
+    if not wire.startswith(b"HTTP/%d.%d %d" % (rq["major"], rq["minor"], exp["code"])):
+        return []
+    rest = wire[k + 4:]
+    writes = [a[1].encode("latin-1") for a in app["acts"] if a[0] == "w"]
+    nobody = rq["method"] == "HEAD" or exp["code"] in (204, 304)
+    chunked = exp["cl"] is None and (rq["major"], rq["minor"]) >= (1, 1) and not nobody
+    if chunked:
+        allowed = b"".join(b"%X\r\n%s\r\n" % (len(w), w) for w in writes if w)
+    elif exp["cl"] is not None:
+        allowed = b"".join(writes)[:exp["cl"]]
+    else:
+        allowed = b"".join(writes)
+    if not allowed.startswith(rest):
+        return ["after an application failure behind the response head, bytes that are not the application's output follow: %r"
+                % rest[len(os.path.commonprefix([allowed, rest])):][:120]]
+    return []
+
+
 def is_wb_conn(case, served):
     return all(case["reqs"][i].get("wb") for i in range(served))
 
@@ -453,6 +489,14 @@ def run_case(case):
             fails += judge_conn(case, outs)
     elif outs:
         fails += judge_failed_response(case, outs)
+    for i, o in enumerate(outs):
+        if i < len(case["reqs"]):
+            fails += judge_nothing_after_aborted(case["reqs"][i], o)
+    if outs and outs[-1].get("headers_sent") and info.get("handled_errors"):
+        # the driver records handle_error() instead of letting it write: an error page behind a head that has
+        # already gone out would be bytes that are neither this response nor the next one
+        fails.append("the worker sends an error page (%s) after the head of response %d had gone out: %r"
+                     % (info["handled_errors"], len(outs) - 1, outs[-1]["wire"][:80]))
     return outs, info, fails
 
 
